@@ -12,7 +12,7 @@
 using namespace tbox::event;
 namespace {
 const int MAXC = 16;
-struct Rec { bool submitted = false; int ran = 0, thr = -1, sub = -1, seq = -1; long order = 0; };
+struct Rec { bool submitted = false, cancelled = false; int ran = 0, thr = -1, sub = -1, seq = -1; long order = 0; };
 Rec R[MAXC]; long g_order = 0;
 Loop *g_loop = nullptr; std::mutex *g_m; std::condition_variable *g_cv; int g_runs_done = 0, g_runs_total = 1;
 int g_next_seq[4];
@@ -30,7 +30,44 @@ std::function<void()> task(int id, bool exit_loop, int child = -1) {
     std::lock_guard<std::mutex> g(*g_m); g_cv->notify_all();
   };
 }
-void submit(int sub, int id, bool exit_loop, int child = -1) { R[id].submitted = true; R[id].sub = sub; R[id].seq = g_next_seq[sub]++; g_loop->runInLoop(task(id, exit_loop, child)); }
+// sequence classes ("submitter" for the order clause): 0,1 = foreign threads through runInLoop, 2 = loop thread through runInLoop / a foreign run(), 3 = loop thread through runNext
+void reg(int sub, int id) { R[id].submitted = true; R[id].sub = sub; R[id].seq = g_next_seq[sub]++; }
+void mark(int id) { std::lock_guard<std::mutex> g(*g_m); R[id].ran++; R[id].thr = sched_self(); R[id].order = ++g_order; }
+void wake_all() { std::lock_guard<std::mutex> g(*g_m); g_cv->notify_all(); }
+void submit(int sub, int id, bool exit_loop, int child = -1) {
+  reg(sub, id);
+  if (sub == 1) { const Loop::Func cf(task(id, exit_loop, child)); g_loop->runInLoop(cf); }     // second submitter: `const Func &` overload
+  else g_loop->runInLoop(task(id, exit_loop, child));
+}
+// block (scheduler-visible) until the given callables have all run: a loop that sleeps while one of them is pending deadlocks here
+void wait_ran(std::initializer_list<int> ids) {
+  std::vector<int> v(ids); std::unique_lock<std::mutex> lk(*g_m);
+  g_cv->wait(lk, [v] { for (int id : v) if (R[id].ran == 0) return false; return true; });
+}
+// scenario 6: a callable of a loop that stays alive hands in more work from the loop thread: runInLoop(child 5), runNext(6) whose callable does runNext(7)
+std::function<void()> chain_root(int id) {
+  return [id] {
+    mark(id);
+    reg(2, 5); g_loop->runInLoop(task(5, false));
+    reg(3, 6); g_loop->runNext([] { mark(6); reg(3, 7); g_loop->runNext(task(7, false)); wake_all(); });
+    wake_all();
+  };
+}
+// scenario 7: a loop-thread callable submits C (5) through runInLoop and cancels it at once, and does the same with a runNext callable (6),
+// while a foreign thread is submitting through runInLoop
+std::function<void()> cancel_root(int id) {
+  return [id] {
+    mark(id);
+    reg(2, 5); Loop::RunId c = g_loop->runInLoop(task(5, false));
+    if (!g_loop->cancel(c)) sched_fail("cancel of a pending runInLoop callable (issued on the loop thread right after submitting it) returned false");
+    R[5].cancelled = true;
+    reg(3, 6); Loop::RunId n = g_loop->runNext(task(6, false));
+    if (!g_loop->cancel(n)) sched_fail("cancel of a pending runNext callable returned false");
+    R[6].cancelled = true;
+    if (g_loop->cancel(c)) sched_fail("second cancel of the same id returned true");
+    wake_all();
+  };
+}
 // closing protocol: keep handing in "exit" callables one at a time until every runLoop() call has returned,
 // so a blocked loop can only mean a lost wake-up, never a harness that forgot to stop it.
 void closing(int sub, int first_id, int n) {
@@ -51,6 +88,14 @@ void scenario(const char *engine, int scen) {
     case 3: g_runs_total = 1; subs.emplace_back([] { submit(0, 0, true); submit(0, 1, false); submit(0, 2, false); }); break;   // submissions around/after exit: run at shutdown or destruction
     case 4: g_runs_total = 2; subs.emplace_back([] { submit(0, 0, true, 4); submit(0, 1, false); closing(0, 8, 4); }); subs.emplace_back([] { submit(1, 2, false); }); break;
     case 5: g_runs_total = 3; subs.emplace_back([] { submit(0, 0, true); closing(0, 8, 5); }); break;                         // three runs
+    case 6: g_runs_total = 1; subs.emplace_back([] { reg(0, 0); g_loop->runInLoop(chain_root(0)); wait_ran({0, 5, 6, 7}); closing(0, 8, 3); }); break;   // loop-thread submissions into a live loop must not need another wake-up
+    case 7: g_runs_total = 1; subs.emplace_back([] { reg(0, 0); g_loop->runInLoop(cancel_root(0)); closing(0, 8, 3); }); subs.emplace_back([] { submit(1, 1, false); }); break;   // cancel on the loop thread vs foreign submission
+    case 8: g_runs_total = 1; subs.emplace_back([] { submit(0, 0, false); wait_ran({0});                       // the loop is now known to be running, and only this thread can stop it
+                                                     reg(2, 1); g_loop->run(task(1, false));                    // run() from a foreign thread: must pick the thread-safe path and wake the loop
+                                                     reg(2, 2); { const Loop::Func cf(task(2, false)); g_loop->run(cf); }
+                                                     wait_ran({1, 2});
+                                                     reg(0, 3); { const Loop::Func cf(task(3, false)); g_loop->runInLoop(cf); }     // `const Func &` overload into a loop that may already sleep: nobody else will wake it
+                                                     wait_ran({3}); closing(0, 8, 3); }); break;
   }
   for (int r = 0; r < g_runs_total; r++) { loop->runLoop(); std::lock_guard<std::mutex> g(m); g_runs_done++; cv.notify_all(); }
   for (auto &t : subs) t.join();
@@ -63,6 +108,7 @@ void scenario(const char *engine, int scen) {
     std::sort(ids.begin(), ids.end(), [](int a, int b) { return R[a].order < R[b].order; });
     std::string ord;
     for (int id : ids) { Rec &r = R[id];
+      if (r.cancelled) { if (r.ran != 0) sched_fail("cancelled callable %d was invoked %d times", id, r.ran); continue; }
       if (r.ran != 1) sched_fail("callable %d (submitter %d) ran %d times", id, r.sub, r.ran);
       if (r.thr != 0) sched_fail("callable %d ran on thread %d, not the loop thread", id, r.thr);
       if (r.seq < lastseq[r.sub]) sched_fail("submitter %d: callable seq %d ran after seq %d", r.sub, r.seq, lastseq[r.sub]);
